@@ -4,7 +4,13 @@ use pvcore::explore::{explore, Chz, Exec, Limits, Stats};
 use pvcore::report::*;
 use serde_json::{json, Value};
 
+pub mod common;
 pub mod c05;
+pub mod c06;
+pub mod c07;
+pub mod c08;
+pub mod c09;
+pub mod c10;
 
 #[derive(Clone, Copy, PartialEq, Eq, Debug)]
 pub enum Tier {
@@ -61,6 +67,11 @@ pub fn scenario_by_name(name: &str, params: &Value) -> Scenario {
     let prop = name.split('/').next().unwrap_or("");
     match prop {
         "C05" => c05::scenario(name, params),
+        "C06" => c06::scenario(name, params),
+        "C07" => c07::scenario(name, params),
+        "C08" => c08::scenario(name, params),
+        "C09" => c09::scenario(name, params),
+        "C10" => c10::scenario(name, params),
         _ => {
             eprintln!("MACHINERY: unknown scenario {}", name);
             std::process::exit(2);
@@ -71,6 +82,11 @@ pub fn scenario_by_name(name: &str, params: &Value) -> Scenario {
 pub fn check_by_id(id: &str, tier: Tier) -> Check {
     match id {
         "C05" => c05::check(tier),
+        "C06" => c06::check(tier),
+        "C07" => c07::check(tier),
+        "C08" => c08::check(tier),
+        "C09" => c09::check(tier),
+        "C10" => c10::check(tier),
         _ => {
             eprintln!("MACHINERY: no check for property {}", id);
             std::process::exit(2);
